@@ -214,6 +214,266 @@ def gen_cases(ctx, configs, probes):
                     runs.append(crash(pt, rng.choice(variants_of(pt[0]))))
         runs += [FULL, FULL]
         cases.append(history(c, runs, salt=i))
+    # (3) several different fits in one output directory
+    cases += gen_neighbours(ctx, by_key, vocab)
+    return cases
+
+
+# ---------------------------------------------------------------------------
+# translator (fail-closed) of the naming functions into coq/C06/Gen.v
+# ---------------------------------------------------------------------------
+
+class Untranslatable(Exception):
+    pass
+
+
+def _find(tree, cls, fn):
+    import ast
+    for node in ast.walk(tree):
+        if isinstance(node, ast.ClassDef) and node.name == cls:
+            for it in node.body:
+                if isinstance(it, ast.FunctionDef) and it.name == fn:
+                    return it
+    if cls is None:
+        for node in tree.body:
+            if isinstance(node, ast.FunctionDef) and node.name == fn:
+                return node
+    raise Untranslatable("%s.%s not found" % (cls, fn))
+
+
+def _body(fn):
+    import ast
+    body = list(fn.body)
+    if body and isinstance(body[0], ast.Expr) and isinstance(getattr(body[0], "value", None), ast.Constant) and isinstance(body[0].value.value, str):
+        body = body[1:]
+    return body
+
+
+def _suffix_of(expr, base_dump, what):
+    """expr must be the f-string f"{<base>}<literal>" (or str(<base>) + <literal>): returns the literal."""
+    import ast
+    if isinstance(expr, ast.JoinedStr) and len(expr.values) == 2:
+        a, b = expr.values
+        if (isinstance(a, ast.FormattedValue) and a.conversion == -1 and a.format_spec is None and ast.dump(a.value) == base_dump
+                and isinstance(b, ast.Constant) and isinstance(b.value, str)):
+            return b.value
+    if isinstance(expr, ast.BinOp) and isinstance(expr.op, ast.Add) and isinstance(expr.right, ast.Constant) and isinstance(expr.right.value, str):
+        l = expr.left
+        if isinstance(l, ast.Call) and isinstance(l.func, ast.Name) and l.func.id == "str" and len(l.args) == 1 and ast.dump(l.args[0]) == base_dump:
+            return expr.right.value
+    raise Untranslatable("%s is not <path> + literal suffix: %s" % (what, ast.unparse(expr)))
+
+
+OUTPUT_PATH_BODY = (
+    "strings = list(filter(None, [str(conf.instance.output_path), str(self.path_prefix), self.unique_tag, str(self.name)]))\n"
+    "if self.is_identifier_in_paths:\n    strings.append(self.identifier)\n"
+    "return Path(path.join('', *strings))")
+
+
+def translate_names(repo):
+    import ast
+    src = lambda rel: ast.parse(open(os.path.join(repo, rel)).read())
+    ab = src("autofit/non_linear/paths/abstract.py")
+    self_out = ast.dump(ast.parse("self.output_path", mode="eval").body)
+    zp = _body(_find(ab, "AbstractPaths", "_zip_path"))
+    if len(zp) != 1 or not isinstance(zp[0], ast.Return):
+        raise Untranslatable("_zip_path is not a single return")
+    zip_suffix = _suffix_of(zp[0].value, self_out, "_zip_path")
+    op = "\n".join(ast.unparse(x) for x in _body(_find(ab, "AbstractPaths", "output_path")))
+    if op != OUTPUT_PATH_BODY:
+        raise Untranslatable("output_path is not <output>/<path_prefix>/<unique_tag>/<name>[/<identifier>]: %s" % op)
+    ut = src("autofit/tools/util.py")
+    zd = _body(_find(ut, None, "zip_directory"))
+    tmp_suffix = None
+    out_default = None
+    for st in zd:
+        if isinstance(st, ast.Assign) and len(st.targets) == 1 and isinstance(st.targets[0], ast.Name):
+            if st.targets[0].id == "temporary":
+                tmp_suffix = _suffix_of(st.value, ast.dump(ast.parse("output", mode="eval").body), "zip_directory.temporary")
+            elif st.targets[0].id == "output":
+                if not (isinstance(st.value, ast.BoolOp) and isinstance(st.value.op, ast.Or) and len(st.value.values) == 2
+                        and ast.dump(st.value.values[0]) == ast.dump(ast.parse("output", mode="eval").body)):
+                    raise Untranslatable("zip_directory: output = %s" % ast.unparse(st.value))
+                out_default = _suffix_of(st.value.values[1], ast.dump(ast.parse("source_directory", mode="eval").body), "zip_directory.output")
+    text = "\n".join(ast.unparse(x) for x in zd)
+    if tmp_suffix is None or "zipfile.ZipFile(temporary, 'w'" not in text or "os.replace(temporary, output)" not in text:
+        raise Untranslatable("zip_directory does not write <output><suffix> and os.replace it onto <output>")
+    if out_default is not None and out_default != zip_suffix:
+        raise Untranslatable("zip_directory default archive suffix %r differs from _zip_path %r" % (out_default, zip_suffix))
+    dr = src("autofit/non_linear/paths/directory.py")
+    hc = _body(_find(dr, "DirectoryPaths", "_has_completed_path"))
+    if len(hc) != 1 or not isinstance(hc[0], ast.Return) or not (
+            isinstance(hc[0].value, ast.BinOp) and isinstance(hc[0].value.op, ast.Div) and ast.dump(hc[0].value.left) == self_out
+            and isinstance(hc[0].value.right, ast.Constant) and isinstance(hc[0].value.right.value, str)):
+        raise Untranslatable("_has_completed_path is not self.output_path / <literal>")
+    return {"zip_suffix": zip_suffix, "tmp_suffix": tmp_suffix, "marker_name": hc[0].value.right.value}
+
+
+GEN_TEMPLATE = """(* GENERATED by harness/vcheck/c06.py (regenerate) from /repo -- do not edit.
+   autofit/non_linear/paths/abstract.py  AbstractPaths._zip_path : f"{self.output_path}%(zip_suffix)s"
+   autofit/tools/util.py                 zip_directory           : temporary = f"{output}%(tmp_suffix)s"
+   autofit/non_linear/paths/abstract.py  AbstractPaths.output_path / DirectoryPaths._has_completed_path *)
+From Coq Require Import List Ascii String.
+Import ListNotations.
+Definition zip_suffix : list ascii := list_ascii_of_string "%(zip_suffix)s".
+Definition tmp_suffix : list ascii := list_ascii_of_string "%(tmp_suffix)s".
+Definition marker_name : list ascii := list_ascii_of_string "%(marker_name)s".
+(* output_path = join(filter(None, [output, path_prefix, unique_tag, name]) + [identifier if is_identifier_in_paths]) *)
+Definition layout_prefix_tag_name_ident : bool := true.
+"""
+
+
+def regenerate(repo=None):
+    """Writes coq/C06/Gen.v from the naming functions of the code under test. Fail-closed: a shape the translator does not
+    know leaves Gen.v as it is (so that the rest still builds and the failing input is searched for) and reports it."""
+    path = os.path.join(common.COQ, "C06", "Gen.v")
+    try:
+        d = translate_names(repo or common.REPO)
+        for v in d.values():
+            if any(ord(ch) < 32 or ord(ch) > 126 or ch == '"' for ch in v):
+                raise Untranslatable("literal %r" % v)
+    except (Untranslatable, OSError, SyntaxError) as e:
+        return False, "untranslatable: %s" % e
+    text = GEN_TEMPLATE % d
+    if not os.path.exists(path) or open(path).read() != text:
+        with open(path, "w") as f:
+            f.write(text)
+    return True, json.dumps(d)
+
+
+# ---------------------------------------------------------------------------
+# several DIFFERENT fits in one output directory (`neighbours` histories)
+# ---------------------------------------------------------------------------
+
+STEMS = ["gauss", "fit", "chain_v2", "m", "run-3", "a b", "x.y", "1"]
+ENDS = ["0", "5", "1", "25", "x", "final", "zipped", "tmpl", "10"]
+
+
+def name_pair(rng, kind):
+    """Two different legal names (no '/', not ending in '.zip' / '.tmp') that are as close as names get."""
+    s = rng.choice(STEMS)
+    a, b = rng.sample(ENDS, 2)
+    if kind == "dot-sibling":        # differ only after the last dot
+        return s + "_v1." + a, s + "_v1." + b
+    if kind == "dot-extends":        # one is the other plus a dotted suffix
+        return s, s + "." + a
+    if kind == "two-dots":
+        return s + ".a." + a, s + ".a." + b
+    if kind == "plain-prefix":       # one is a proper prefix of the other
+        return s, s + "_" + a
+    if kind == "suffix-inside":      # archive / temporary suffixes inside the name, not at its end
+        return s + ".zip." + a, s + ".zip." + b
+    if kind == "hidden":             # leading dot
+        return "." + s, "." + s + "." + a
+    if kind == "trailing-dot":
+        return s + ".", s + ".." + a
+    raise ValueError(kind)
+
+
+PAIR_KINDS = ["dot-sibling", "dot-extends", "two-dots", "plain-prefix", "suffix-inside", "hidden", "trailing-dot"]
+
+
+def fit_pair(rng, kind=None, where=None, ident=None):
+    """Two (sometimes three) fit specifications sharing one output directory."""
+    kind = kind or rng.choice(PAIR_KINDS + ["same-name-other-model"])
+    if kind == "same-name-other-model":
+        f = {"name": rng.choice(STEMS) + rng.choice(["", ".5"]), "prefix": rng.choice(["", "p", "p/q.1"]),
+             "tag": rng.choice(["", "t.1"]), "ident": True}
+        return kind, [dict(f, variant=0), dict(f, variant=1)]
+    where = where or rng.choice(["name", "name", "name", "tag", "prefix"])
+    ident = rng.random() < 0.25 if ident is None else ident
+    a, b = name_pair(rng, kind)
+    base = {"name": rng.choice(STEMS), "prefix": rng.choice(["", "demo", "p/q.1", "grid.2/cells"]), "tag": rng.choice(["", "", "tag.7"]),
+            "ident": bool(ident)}
+    fits = []
+    for x in (a, b):
+        f = dict(base)
+        if where == "prefix":
+            f["prefix"] = (base["prefix"] + "/" if base["prefix"] else "") + x
+        else:
+            f[where] = x
+        fits.append(f)
+    if rng.random() < 0.25 and kind in ("dot-sibling", "two-dots"):
+        c = dict(fits[0])
+        key = "prefix" if where == "prefix" else where
+        c[key] = fits[0][key].rsplit(".", 1)[0]          # the common part up to the last dot, as a third fit
+        fits.append(c)
+    return kind + "@" + where + ("+id" if ident else ""), fits
+
+
+def illegal_names(case):
+    """Some fit's folder name (last path component; never the identifier) ends in the archive / temporary suffix: outside the
+    guard `legal` of the naming theorems (Naming.v), where the folder of one fit IS the archive name of another."""
+    return any(not f.get("ident") and f["name"].endswith((".zip", ".tmp")) for f in case.get("fits") or [])
+
+
+def neighbour_history(cfg, fits, runs, salt, shape):
+    h = dict(cfg)
+    h.update({"fits": fits, "runs": runs, "salt": salt, "shape": shape})
+    return h
+
+
+def gen_neighbours(ctx, by_key, vocab):
+    """Histories of 2-3 different fits run in one output directory, in any order, with crashes in between. Every fit ends with
+    two uninterrupted runs. Shapes: S1 plain alternation; S2 a completed fit's re-run dies between extraction and
+    re-compression, the neighbour runs, then the fit again; S3 random interleaving with random crash points."""
+    rng = ctx.rng
+    thorough = ctx.tier == "thorough"
+    keys = sorted(k for k in by_key if k.startswith(("drawer", "lbfgs")) and k.endswith("chk0"))
+    cases = []
+
+    def tail(n):
+        return [{"fit": i, "crash": None} for _ in range(2) for i in range(n)]
+
+    def window(k):
+        """kill points of a completed re-run after the archive was extracted and removed, before it is back"""
+        rerun = vocab[k][1]
+        idx = [i for i, pt in enumerate(rerun) if pt[0] == "R" and pt[1] == "Zip"]
+        end = [i for i, pt in enumerate(rerun) if pt[0] == "MV" and pt[1] == "Zip"]
+        if not idx:
+            return rerun
+        return rerun[idx[0] + 1:(end[0] + 1 if end else len(rerun))] or rerun
+
+    plan = [("S1", "dot-sibling", "name", False), ("S2", "dot-sibling", "name", False), ("S1", "dot-extends", "name", False),
+            ("S2", "dot-extends", "name", False), ("S3", "two-dots", "name", False), ("S3", None, "tag", None), ("S3", None, "prefix", None),
+            ("S1", "same-name-other-model", None, None)]
+    plan += [(rng.choice(["S1", "S2", "S3", "S3"]), None, None, None) for _ in range(60 if thorough else 4)]
+    for n, (shape, kind, where, ident) in enumerate(plan):
+        k = rng.choice(keys)
+        c, _ = by_key[k]
+        label, fits = fit_pair(rng, kind, where, ident)
+        nf = len(fits)
+        order = list(range(nf))
+        rng.shuffle(order)
+        if shape == "S1":
+            runs = [{"fit": i, "crash": None} for i in order]
+        elif shape == "S2":
+            a = order[0]
+            pt = rng.choice(window(k))
+            runs = [{"fit": a, "crash": None}, dict(crash(pt, rng.choice(variants_of(pt[0]))), fit=a)]
+            runs += [{"fit": i, "crash": None} for i in order[1:]] + [{"fit": a, "crash": None}]
+        else:
+            runs = []
+            fresh, rerun = vocab[k]
+            for j in range(rng.randint(3, 6)):
+                i = rng.choice(order)
+                if rng.random() < 0.35:
+                    runs.append({"fit": i, "crash": None})
+                else:
+                    pt = rng.choice(fresh + rerun if rng.random() < 0.5 else window(k))
+                    runs.append(dict(crash(pt, rng.choice(variants_of(pt[0]))), fit=i))
+        runs += tail(nf)
+        cs = neighbour_history(c, fits, runs, 1000 + n, shape + ":" + label)
+        cases.append(cs)
+    # names ending in the archive / temporary suffix beside the fit named by the stem (outside the guard of the naming
+    # theorems; known finding archive-suffix-name): uninterrupted alternation only
+    for n in range(6 if thorough else 1):
+        c, _ = by_key[rng.choice(keys)]
+        stem = rng.choice(STEMS)
+        names = [stem, stem + rng.choice([".zip", ".zip", ".zip.tmp"])]
+        rng.shuffle(names)
+        fits = [{"name": x, "prefix": "demo", "tag": "", "ident": False} for x in names]
+        cases.append(neighbour_history(c, fits, [{"fit": i, "crash": None} for _ in range(3) for i in (0, 1)], 2000 + n, "S1:archive-suffix-name"))
     return cases
 
 
@@ -240,6 +500,10 @@ def labels(case):
     out = set()
     if case.get("db"):
         return ["database-paths"]
+    if case.get("fits"):
+        out.add("neighbours")
+        if illegal_names(case):
+            return ["archive-suffix-name"]
     crashes = [r["crash"] for r in case["runs"] if r.get("crash")]
     for cr in crashes:
         if cr["kind"] in ("ZW",) and cr["variant"] in ("empty", "half"):
@@ -362,10 +626,57 @@ def oracle_db(case, res):
     return fails
 
 
+def fit_label(f):
+    return "/".join(x for x in (f.get("prefix"), f.get("tag"), f.get("name")) if x) + ("/<identifier>" if f.get("ident") else "") + (
+        " (model variant %d)" % f["variant"] if f.get("variant") else "")
+
+
+def oracle_neighbours(case, res):
+    """Several different fits in one output directory: C06 must hold for each of them, whatever the others do in between.
+    Each fit is judged on the whole history: its own runs as usual, the runs of the other fits as events after which its
+    completed result must still be there (looked for under the documented names and, independently of any naming rule,
+    anywhere under the output directory)."""
+    fails = []
+    for f, spec in enumerate(case["fits"]):
+        own = {i for i, r in enumerate(case["runs"]) if r["fit"] == f}
+        pc = dict(case)
+        pc.pop("fits")
+        pc["own_runs"] = own
+        pc["fit_label"] = "fit %d '%s'" % (f, fit_label(spec))
+        runs = []
+        for i, run in enumerate(res["runs"]):
+            run = dict(run)
+            if run["outcome"] != "driver-error":
+                run["fs"] = run["fs_all"][f]
+                if i not in own:
+                    run["outcome"] = "other"
+                    run["bad_rename"] = None
+            runs.append(run)
+        for sig, msg in oracle(pc, {"runs": runs}):
+            fails.append((sig, "%s: %s" % (pc["fit_label"], msg)))
+    seen, out = set(), []
+    for sig, msg in fails:
+        if sig not in seen:
+            seen.add(sig)
+            out.append((sig, msg))
+    return out
+
+
+def anywhere(run, tag, csv):
+    """A complete copy of generation `tag` in some folder or readable archive anywhere under the output directory (consulted
+    only when the implementation used names outside the documented ones: otherwise the documented places are all there is)."""
+    if not run.get("foreign"):
+        return False
+    return any(copy_ok(c["files"], tag, csv) for c in run.get("copies") or [])
+
+
 def oracle(case, res):
     """Direct statement of C06 on what the implementation did. Returns a list of (signature, message)."""
     if case.get("db"):
         return oracle_db(case, res)
+    if case.get("fits"):
+        return oracle_neighbours(case, res)
+    own = case.get("own_runs")      # projection of a neighbours history onto one fit: the runs that are this fit's
     fails = []
     done = None          # (run index, generation) at which the fit became complete (.completed with its result files)
     ref = None           # first result returned after / at completion
@@ -385,14 +696,23 @@ def oracle(case, res):
             g = stored_tag(run["fs"], case["csv"])
             if g is not None:
                 done = (i, g)
+            elif own is not None and out == "ok" and run["result_tag"] is not None:
+                done = (i, run["result_tag"])       # it returned a result: complete from here on, wherever it was put
         if out.startswith("exc:"):
             # (resume) a run that is not killed terminates normally with a complete result
             fails.append((out, "run %d (after %s) did not terminate normally: %s %s" % (
                 i, "a crashed run" if i and res["runs"][i - 1]["outcome"] == "crashed" else "earlier runs", out[4:], run.get("msg"))))
         if out == "ok":
             r = run["result"]
-            if run["result_tag"] is None or not stored(run["fs"], run["result_tag"], case["csv"]):
+            if run["result_tag"] is None or not (stored(run["fs"], run["result_tag"], case["csv"]) or anywhere(run, run["result_tag"], case["csv"])):
                 fails.append(("incomplete", "run %d returned a result but its files are not completely on disk" % i))
+            if own is not None:
+                # run numbers are global and every run's likelihood carries its number: what a fit returns was evaluated by
+                # one of ITS runs
+                for what, t in (("result", run["result_tag"]), ("samples", run["samples_tag"])):
+                    if t is not None and t not in own:
+                        fails.append(("foreign-result", "run %d returned the %s evaluated by run %s, which is a run of ANOTHER fit "
+                                      "in the same output directory" % (i, what, t)))
             if was_done is None:
                 if run["evals"] == 0:
                     fails.append(("no-sampling", "run %d completed the fit without evaluating the likelihood" % i))
@@ -430,9 +750,9 @@ def oracle(case, res):
         if done is not None:
             # (durable) the completed result is never lost, corrupted or replaced -- whatever happens to later runs
             j, g = done
-            if not stored(run["fs"], g, case["csv"]):
+            if not stored(run["fs"], g, case["csv"]) and not anywhere(run, g, case["csv"]):
                 fails.append(("lost", "after run %d (%s) the result completed by run %d is no longer on disk (folder %s, archive %s)" % (
-                    i, out, j, "with .completed" if any(f[0] == "Marker" for f in run["fs"]["files"]) else "without .completed",
+                    i, "a run of another fit" if out == "other" else out, j, "with .completed" if any(f[0] == "Marker" for f in run["fs"]["files"]) else "without .completed",
                     run["fs"]["zip"]["state"])))
             if out == "ok":
                 dl = dill_of(run["fs"])
@@ -541,6 +861,8 @@ def c_run(run):
     z = run["fs"]["zip"]
     if run["fs"]["nzips"] > 1:
         raise Unprintable("two archives")
+    if z["state"] not in ("absent", "partial", "full"):
+        raise Unprintable("archive name is %s" % z["state"])
     zo = {"absent": "ZOAbsent", "partial": "ZOPartial"}.get(z["state"]) or "(ZOFull %s)" % c_files(z["members"])
     strays = run["fs"]["strays"]
     if any(not s.endswith(".zip.tmp") for s in strays):
@@ -556,6 +878,57 @@ def coq_case(case, res, flags):
         run["variant"] = (spec.get("crash") or {}).get("variant")
         runs.append(c_run(run))
     return "CHistory %s %s %s %s" % (c_code(flags), c_cfg(case), cbool(not case.get("chk")), clist(runs))
+
+
+def cstr(x):
+    if any(ord(ch) < 32 or ord(ch) > 126 for ch in x):
+        raise Unprintable("name %r" % x)
+    return '(S_ "%s")' % x.replace('"', '""')
+
+
+def cpath(rel):
+    return "None" if rel is None else "(Some %s)" % clist([cstr(x) for x in rel.split("/") if x])
+
+
+def fs_key(fs):
+    return json.dumps([fs["files"], fs["zip"], fs["strays"], fs["nzips"]], sort_keys=True)
+
+
+def coq_neighbours(case, res, flags):
+    """Coq terms (type ncase) of a neighbours history: per fit, its own runs with the global run numbers as tags (NHistory)
+    and the names it really used against the modelled naming scheme (NNames). Also the direct check, on the observations,
+    of what Naming.neighbours_independent says: a run of one fit leaves folder / archive of every other fit as they were."""
+    terms, problems = [], []
+    for i, run in enumerate(res["runs"]):
+        if run.get("foreign"):
+            problems.append("run %d left names outside <folder>, <folder>.zip, <folder>.zip.tmp of the fits: %s" % (i, run["foreign"]))
+            break
+    for f, spec in enumerate(case["fits"]):
+        own = [i for i, r in enumerate(case["runs"]) if r["fit"] == f]
+        before = None
+        for i, run in enumerate(res["runs"]):
+            if run["outcome"] == "driver-error":
+                continue
+            k = fs_key(run["fs_all"][f])
+            if i not in own and k != (before if before is not None else fs_key({"files": [], "zip": {"state": "absent", "members": []}, "strays": [], "nzips": 0})):
+                problems.append("run %d (fit %d) changed folder / archive of fit %d '%s'" % (i, case["runs"][i]["fit"], f, fit_label(spec)))
+                break
+            before = k
+        runs, names = [], {}
+        for i in own:
+            run = dict(res["runs"][i])
+            run["variant"] = (case["runs"][i].get("crash") or {}).get("variant")
+            runs.append("(%s, %s)" % (cnat(i), c_run(run)))
+            names.update(run.get("names") or {})
+        terms.append("NHistory %s %s %s" % (c_code(flags), c_cfg(case), clist(runs)))
+        folder = res["folders"][f]
+        ident = "(Some %s)" % cstr(folder.split("/")[-1]) if spec.get("ident") else "None"
+        fit = "(mkfit %s %s %s %s)" % (clist([cstr(x) for x in (spec.get("prefix") or "").split("/") if x]),
+                                       cstr(spec.get("tag") or "") if spec.get("tag") else "[]", cstr(spec["name"]), ident)
+        marker = names.get("marker")
+        terms.append("NNames %s %s %s %s %s" % (fit, cpath(os.path.dirname(marker) if marker else None), cpath(marker),
+                                               cpath(names.get("zip")), cpath(names.get("ziptmp"))))
+    return terms, problems
 
 
 # ---------------------------------------------------------------------------
@@ -580,8 +953,10 @@ def run_histories(cases, chunk=None):
 
 
 def nontrivial(case, res):
-    """At least one run was really killed, and a later run ran to its end."""
+    """At least one run was really killed, and a later run ran to its end (neighbours: at least two fits returned a result)."""
     outs = [r["outcome"] for r in res["runs"]]
+    if case.get("fits"):
+        return len({s["fit"] for s, o in zip(case["runs"], outs) if o == "ok"}) >= 2
     if case.get("db"):
         return len(outs) >= 2
     if "crashed" not in outs:
@@ -594,6 +969,9 @@ def short(case):
     def cs(r):
         cr = r.get("crash")
         return "full" if not cr else "%s:%s#%d/%s" % (cr["kind"], cr["role"], cr["occ"], cr["variant"])
+    if case.get("fits"):
+        return {"config": cfg_key(case), "fits": [fit_label(f) for f in case["fits"]],
+                "runs": ["fit%d:%s" % (r["fit"], cs(r)) for r in case["runs"]]}
     return {"config": cfg_key(case), "runs": [cs(r) for r in case["runs"]]}
 
 
@@ -604,7 +982,10 @@ def run(ctx):
                 "Single crashes are enumerated exhaustively over every mutation event of a fresh run and of a completed re-run for the "
                 "chosen configurations (2 in the quick tier, 12 of the 48 in the thorough tier, seed-dependent); multi-crash histories are random. Every history ends with two "
                 "uninterrupted runs; two DatabasePaths histories (uninterrupted runs through a database session) are judged by the oracle "
-                "only. Non-trivial = some run was really killed and a later run ran to its end (database histories: at least two runs); "
+                "only. Neighbours histories: 2-3 DIFFERENT fits (own name / path prefix / unique tag / model, with or without the identifier "
+                "folder; names with dots, one a prefix of the other, differing only after the last dot, '.zip'/'.tmp' inside) run in one output "
+                "directory in any order with kills in between (12 per quick run, 4 shapes fixed: dotted siblings without identifier folder), each "
+                "fit judged on the whole history; plus one pair <stem> / <stem>.zip (known finding). Non-trivial = some run was really killed and a later run ran to its end (database histories: at least two runs); "
                 "distinct = distinct (settings, run list)")
     ctx.trusted = [
         "Coq 8.16.1 kernel incl. vm_compute",
@@ -619,9 +1000,14 @@ def run(ctx):
         "the model covers DirectoryPaths with the Drawer and LBFGS searches; DatabasePaths is covered by the oracle only (re-run of a "
         "completed fit, no crashes); dynesty/emcee checkpoints are not covered",
         "output settings are fixed along a history; LBFGS runs >= 1 update block; visualisation is off",
+        "several fits in one output directory: no fit's folder lies inside another fit's folder (the flat disk model of Naming.v does not "
+        "express nesting); folder names ending in '.zip' / '.tmp' are outside the guard `legal` of the naming theorems (oracle only, known "
+        "finding archive-suffix-name); fits run one after the other (no concurrent writers)",
         "theorems named *_repaired are about the model with the four file-system repairs switched on (proposed_fixes/C06-*.diff); the "
         "correspondence is pinned to Model.repaired (obligation model-variant: behavioural probes must show every repair present)",
     ]
+    ok, detail = regenerate()
+    ctx.obligation("translator:Gen.v", "translator", ok, detail)
     built = ctx.build()
     configs = all_configs()
     if ctx.replay:
@@ -685,15 +1071,18 @@ def run(ctx):
     cases = pcs + extra_cases + cases
     results = pres + results
     coq_cases, coq_idx = [], []
+    ncases, nidx = [], []
     for i, (c, r) in enumerate(zip(cases, results)):
-        key = {k: v for k, v in c.items() if k not in ("salt", "regression")}
+        key = {k: v for k, v in c.items() if k not in ("salt", "regression", "shape")}
         if "ok" not in r:
             ctx.count_case(key, False, "driver-failure")
             ctx.failure("oracle", "driver failed: %s" % r.get("msg"), c, impl=r)
             continue
         res = r["ok"]
         nt = nontrivial(c, res)
-        ctx.count_case(key, nt, cfg_key(c))
+        ctx.count_case(key, nt, ("neighbours-" if c.get("fits") else "") + cfg_key(c))
+        if c.get("fits"):
+            ctx.hist("neighbours", c.get("shape", "replay"))
         ctx.hist("runs", len(c["runs"]))
         for spec, run_ in zip(c["runs"], res["runs"]):
             cr = spec.get("crash")
@@ -708,6 +1097,23 @@ def run(ctx):
             ctx.oracle["failures"] += 1
             ctx.failure("oracle", msg, c, classes=["%s:%s" % (l, sig) for l in lab], impl=compact(res))
         if c.get("db") or c["search"] in ("dynesty", "pyswarms"):
+            continue
+        if c.get("fits") and illegal_names(c):
+            continue          # outside the guard `legal` of the naming model: oracle only
+        if c.get("fits"):
+            try:
+                terms, problems = coq_neighbours(c, res, flags)
+                for t in terms:
+                    ncases.append(t)
+                    nidx.append((i, bool(fails)))
+                if problems:
+                    ctx.failure("correspondence", "the modelled naming scheme / independence of neighbouring fits does not hold: %s" % "; ".join(problems), c,
+                                impl=compact(res), broken={"kind": "correspondence", "name": "C06.check_ncase"}, found_input=bool(fails),
+                                classes=["%s:%s" % (l, s) for l in lab for s, _ in fails])
+            except Unprintable as e:
+                ctx.failure("correspondence", "the implementation did something the model has no vocabulary for: %s" % e, c,
+                            impl=compact(res), broken={"kind": "correspondence", "name": "C06.check_ncase"}, found_input=bool(fails),
+                            classes=["%s:%s" % (l, s) for l in lab for s, _ in fails])
             continue
         try:
             coq_cases.append(coq_case(c, res, flags))
@@ -729,6 +1135,17 @@ def run(ctx):
                             broken={"kind": "correspondence", "name": "C06.check_case"}, found_input=False)
     else:
         ctx.obligation("correspondence:cases", "correspondence", False, "Model.vo not built")
+    if os.path.exists(os.path.join(common.COQ, "C06", "Naming.vo")):
+        hdr = ctx.header(["Model", "Gen", "Naming"])
+        bad, log = ctx.eval_cases(hdr, "ncase", "check_ncase", ncases, tag="neighbours", shard=60)
+        for b in (bad or [])[:5]:
+            i, failed = nidx[b]
+            what = ("names" if ncases[b].startswith("NNames") else "runs of one fit")
+            ctx.failure("correspondence", "model and implementation disagree on the %s of neighbours history %s: %s" % (
+                what, json.dumps(short(cases[i])), ncases[b][:400] if what == "names" else ""),
+                cases[i], impl=compact(results[i]["ok"]), broken={"kind": "correspondence", "name": "C06.check_ncase"}, found_input=failed)
+    elif ncases:
+        ctx.obligation("correspondence:neighbours", "correspondence", False, "Naming.vo not built")
 
 
 def model_term(case_term):
@@ -747,6 +1164,9 @@ def compact(res):
                     "truncated": r.get("truncated"), "crash_index": r.get("crash_index"),
                     "folder": " ".join("%s=%s%s" % (f[0], f[1], "" if f[2] is None else "(%s)" % f[2]) for f in r["fs"]["files"]),
                     "archive": r["fs"]["zip"]["state"], "strays": r["fs"]["strays"]})
+        if "fit" in r:
+            out[-1].update({"fit": r["fit"], "names": r.get("names"), "foreign": r.get("foreign"),
+                            "copies": [[c["where"], c["kind"]] for c in r.get("copies") or []]})
     return out
 
 
@@ -758,7 +1178,12 @@ MANIFEST = {
             "and under every crash once the archive write is atomic (durable), a reachability invariant holds along every history and "
             "recoverable states resume to a complete result (resume; unconditional for the repaired code), with _refuted witnesses for the "
             "archive-write window, LBFGS resume, truncated search state / summary, empty timer files; vm_compute correspondence of the model "
-            "with real killed/re-run fits (trace, outcome, folder, archive) and a direct property oracle",
+            "with real killed/re-run fits (trace, outcome, folder, archive) and a direct property oracle; "
+            "naming model (folder / archive / temporary archive / marker of a fit; suffixes translated fail-closed from _zip_path, zip_directory, "
+            "_has_completed_path, output_path pinned) with theorems: the archive name determines the folder, two different legal fits share no "
+            "name, and in any interleaving of runs and crashes of several fits in one directory each fit sees exactly its own history (hence "
+            "durable / complete-once / never handed a neighbour's output); correspondence on generated neighbour histories (names really used, "
+            "per-fit runs, no run touches another fit's folder or archive) and a per-fit oracle incl. a name-agnostic search for the completed result",
     "note": "Trusted: Coq kernel + vm_compute, the audit-hook fault injector and file readers of the harness, POSIX process-death "
             "semantics (no power loss, no concurrent writers). Model: Drawer and LBFGS with DirectoryPaths (incl. the user files of "
             "Analysis.save_attributes / save_results); DatabasePaths, DynestyStatic and PySwarms by the oracle only; every os.replace is "
